@@ -16,7 +16,7 @@ import jax.random as jr  # noqa: E402
 
 from lerax.algorithm import PPO  # noqa: E402
 from lerax.benchmark import average_reward, rollout_scan, rollout_while  # noqa: E402
-from lerax.callback import LoggingCallback  # noqa: E402
+from lerax.callback import AbstractCallbackStepState, AbstractStepCallback, LoggingCallback  # noqa: E402
 from lerax.callback.logging import AbstractLoggingBackend  # noqa: E402
 from lerax.callback.logging.callback import LoggingCallbackStepState  # noqa: E402
 
@@ -168,6 +168,92 @@ def learn_cases(ck, rng, n):
     return cases, cj
 
 
+class HistState(AbstractCallbackStepState):
+    rew: jax.Array
+    done: jax.Array
+    ptr: jax.Array
+
+
+class HistObserver(AbstractStepCallback):
+    """an independent user observer: records per environment the (reward, done) pair of every step it is told about
+    (warm-up included) and hands the history to the host at every iteration"""
+    cap: int = eqx.field(static=True)
+    sink: list = eqx.field(static=True)
+
+    def step_reset(self, ctx, *, key):
+        return HistState(jnp.zeros((self.cap,)), jnp.zeros((self.cap,), dtype=bool), jnp.array(0))
+
+    def on_step(self, ctx, *, key):
+        s = ctx.state
+        i = jnp.minimum(s.ptr, self.cap - 1)
+        return HistState(s.rew.at[i].set(ctx.reward), s.done.at[i].set(ctx.done), s.ptr + 1)
+
+    def on_iteration(self, ctx, *, key):
+        ss = ctx.step_state
+        jax.debug.callback(lambda r, d, p: self.sink.append((np.array(r), np.array(d), np.array(p))), ss.rew, ss.done, ss.ptr, ordered=True)
+        return ctx.state
+
+
+def learn_hist_cases(ck, rng, n):
+    """learn() of DQN / SAC (warm-up steps before the first iteration) and PPO / A2C with the STOCK networks on finite MDPs:
+    the records the backend receives vs the history an independent user step observer saw"""
+    import os
+    import sys
+    from lerax.algorithm import A2C, DQN, SAC
+    from lerax.policy import MLPActorCriticPolicy, MLPQPolicy, MLPSACPolicy
+    cases, cj = [], []
+    for i in range(n):
+        kind = ["DQN", "SAC", "DQN", "PPO", "A2C"][i % 5]
+        spec = random_tab(rng, box_obs=False, box_action=(kind == "SAC"), trunc_rate=0.05, term_rate=0.25)
+        stack, asp, osp = random_stack(rng, spec, depth=int(rng.integers(1, 3)), allow=["TimeLimit", "ClipReward", "TransformReward", "TimeLimit"])
+        env = build_stack(TabEnv(spec), stack)
+        N = int(rng.choice([1, 2, 4])); T = int(rng.integers(1, 5)); iters = int(rng.integers(2, 5))
+        L = int(rng.integers(0, 9)) if kind in ("DQN", "SAC") else 0
+        alpha = float(rng.choice([0.5, 0.25, 1.0]))
+        total = iters * N * T + int(rng.integers(0, N * T))
+        seed = int(115_000 * (ck.seed + 1) + i)
+        k1, k2 = jr.split(jr.key(seed))
+        if kind == "DQN":
+            algo = DQN(buffer_size=64 * N, learning_starts=L, num_envs=N, num_steps=T, batch_size=2)
+            pol = MLPQPolicy(env=env, key=k1, width_size=4, depth=1)
+        elif kind == "SAC":
+            algo = SAC(buffer_size=64 * N, learning_starts=L, num_envs=N, num_steps=T, batch_size=2, q_width_size=4, q_depth=1)
+            pol = MLPSACPolicy(env=env, key=k1, feature_size=4, width_size=4, depth=1)
+        else:
+            algo = (PPO(num_envs=N, num_steps=T, num_epochs=1, num_batches=1) if kind == "PPO" else A2C(num_envs=N, num_steps=T))
+            pol = MLPActorCriticPolicy(env=env, key=k1, feature_size=4, feature_width=4, feature_depth=1, value_width=4, value_depth=1,
+                                       action_width=4, action_depth=1)
+        rec, sink = Rec(), []
+        cap = L + iters * T + 2
+        ck.current_case = {"algo": kind, "spec": spec, "stack": stack, "N": N, "T": T, "L": L, "total_timesteps": total, "seed": seed}
+        out, err = sys.stdout, sys.stderr
+        sys.stdout = sys.stderr = open(os.devnull, "w")
+        try:
+            algo.learn(env, pol, total, key=k2, callback=[LoggingCallback(rec, name="verif", alpha=alpha), HistObserver(cap, sink)])
+            jax.effects_barrier()
+        finally:
+            sys.stdout, sys.stderr = out, err
+        recs = [(st, sc["episode/return"], sc["episode/length"]) for st, sc in rec.rows]
+        hist = []
+        if sink:
+            r, d, p = sink[-1]
+            r, d, p = np.atleast_2d(r), np.atleast_2d(d), np.atleast_1d(p)
+            hist = [[(float(r[e][t]), bool(d[e][t])) for t in range(min(int(p[e]), cap))] for e in range(r.shape[0])]
+        lit = (f"CLearnHist {ql(alpha)} {N}%nat {T}%nat {L}%nat {iters}%nat "
+               f"{listl(listl('(' + ql(a) + ', ' + bl(b) + ')' for a, b in h) for h in hist)} "
+               f"{listl('(' + zl(a) + ', ' + ql(b) + ', ' + ql(c) + ')' for a, b, c in recs)}")
+        n_done = sum(b for h in hist for _, b in h)
+        j = {"api": f"{kind}.learn + [LoggingCallback(recording backend), user step observer]", "spec": spec, "stack": stack, "num_envs": N, "num_steps": T,
+             "learning_starts": L, "total_timesteps": total, "expected_iterations": iters, "alpha": alpha, "seed": seed,
+             "observer_history_per_env[(reward, done)]": hist, "impl_records[step,episode/return,episode/length]": recs}
+        cases.append(lit); cj.append(j)
+        ck.case_seen(("learn-hist", kind, i, N, T, L, iters) if (n_done >= 1 and (L > 0 or kind in ("PPO", "A2C"))) else None, sample=None)
+        ck.count("learn_hist_runs:" + kind); ck.count("log_records", len(recs)); ck.count("warmup_steps", L * N)
+        jax.clear_caches()
+    ck.current_case = None
+    return cases, cj
+
+
 def body(ck):
     ck.rule = ("(a) next(): histories of 1..29 (reward, done) steps, dyadic alpha; (b) step-callback reward/done from real collect_rollout on finite MDPs (C04 generator); "
                "(c) PPO.learn with LoggingCallback + recording backend on finite MDPs, N 1..3, T 2..5, 1..3 iterations; (d) rollout_scan / rollout_while / average_reward "
@@ -191,6 +277,10 @@ def body(ck):
     res = ck.run_coq_cases("C19Check", c3, shard=3, preamble=pre)
     ck.classify(res, j3, sig_of=lambda i: "C19/learn-records", relation="C19Check.learn_records vs scalars received by the backend",
                 what="log records are not in iteration order with the cumulative number of environment steps / the per-environment EMA means")
+    c4, j4 = learn_hist_cases(ck, rng, 10 if quick else 60)
+    res = ck.run_coq_cases("C19Check", c4, shard=5, preamble=pre)
+    ck.classify(res, j4, sig_of=lambda i: "C19/learn-records/" + j4[i]["api"].split(".")[0], relation="C19Check.hist_records vs scalars received by the backend",
+                what="log records are not the per-environment statistics of the steps that happened (warm-up included) with the cumulative number of environment steps")
     # (b) the reward handed to step callbacks is the environment's reward
     cases, cj = [], []
     for i in range(20 if quick else 150):
